@@ -32,6 +32,7 @@ type DeclSet struct {
 	funOrder   []string
 	strLits    map[string]string // literal text -> const name
 	strOrder   []string
+	strByName  map[string]string // const name -> literal text
 	sortsDecl  map[string]bool // uninterpreted sorts
 	sortOrder  []string
 	typeIDs    map[string]int // dynamic type name -> id (for Iface tags)
@@ -1018,7 +1019,7 @@ func (v *Verifier) noteRead(s *State, val *Term, t types.Type) {
 		return
 	}
 	switch t.Underlying().(type) {
-	case *types.Basic, *types.Slice, *types.Pointer, *types.Map, *types.Interface, *types.Signature, *types.Chan:
+	case *types.Basic, *types.Slice, *types.Pointer, *types.Map, *types.Interface, *types.Signature, *types.Chan, *types.Struct:
 		f := v.typeFacts(s, val, t)
 		if !f.isTrue() && val.Size() < 60 {
 			s.assume(f)
@@ -1316,6 +1317,10 @@ func (v *Verifier) strLit(s string) *Term {
 	}
 	n := fmt.Sprintf("str!%d", len(v.d.strLits))
 	v.d.strLits[s] = n
+	if v.d.strByName == nil {
+		v.d.strByName = map[string]string{}
+	}
+	v.d.strByName[n] = s
 	v.d.strOrder = append(v.d.strOrder, s)
 	return Const(n, SStr)
 }
